@@ -263,6 +263,73 @@ func EngineWalk(v *vrt.Ctx) {
 	}
 }
 
+// EngineTwoLists: one session, one long-lived engine, two nodes with a
+// paginated list each (different sink symbols): the first list is walked to
+// its end, then the second one. The renderer is re-used from node to node;
+// what it keeps from the first list must not disturb the second.
+func EngineTwoLists(v *vrt.Ctx) {
+	ctx := context.Background()
+	size := v.U32("outputsize")
+	v.Assume(size >= 16 && size <= 120)
+	cfg := engine.Config{Root: "root", FlagCount: 4, SessionId: "s1", OutputSize: size}
+	en := engine.NewEngine(cfg, apps.TwoSinks())
+	// page text without rows but with the menu entry and both browse entries
+	// is 17 bytes, the longest row 5
+	v.Finding("F12-later-row-fills-page", size < 17+5)
+	request := func(in string) (string, error) {
+		_, err := en.Exec(ctx, []byte(in))
+		if err != nil {
+			return "", err
+		}
+		w := &app.Sink{}
+		_, err = en.Flush(ctx, w)
+		return w.S, err
+	}
+	walk := func(page string, rows []string) bool {
+		next := 0
+		for n := 0; n < 8; n++ {
+			hasNext := false
+			for _, l := range strings.Split(page, "\n") {
+				for i := next; i < len(rows); i++ {
+					if l == rows[i] {
+						v.Assert(i == next, "C02/engine-rows-in-order-exactly-once")
+						next = i + 1
+					}
+				}
+				if l == "8:fw" {
+					hasNext = true
+				}
+			}
+			if !hasNext {
+				break
+			}
+			var err error
+			page, err = request("8")
+			v.Assert(err == nil, "C02/engine-offered-next-renders")
+			if err != nil {
+				return false
+			}
+		}
+		v.Assert(next == len(rows), "C02/engine-rows-missing")
+		return true
+	}
+	page, err := request("")
+	if err != nil {
+		v.Cover("C02/engine-list-does-not-fit")
+		return
+	}
+	if !walk(page, []string{"ant", "bee", "cat", "dog", "eel"}) {
+		return
+	}
+	page, err = request("1")
+	v.Assert(err == nil, "C02/engine-second-list-renders")
+	if err != nil {
+		return
+	}
+	walk(page, []string{"one", "two", "three", "four"})
+	v.Cover("C02/engine-two-lists")
+}
+
 // ByteWalk: the same walk with rows of symbolic bytes (any byte but LF, the
 // row separator; blanks, tabs and other bytes a trim or a split could treat
 // specially included; not NUL, which the renderer reserves) instead of uninterpreted chunks, short concrete
@@ -462,8 +529,9 @@ func EmptyRows(v *vrt.Ctx) {
 }
 
 var Harnesses = map[string]func(*vrt.Ctx){
-	"Walk":       Walk,
-	"EngineWalk": EngineWalk,
-	"ByteWalk":   ByteWalk,
-	"EmptyRows":  EmptyRows,
+	"EngineTwoLists": EngineTwoLists,
+	"Walk":           Walk,
+	"EngineWalk":     EngineWalk,
+	"ByteWalk":       ByteWalk,
+	"EmptyRows":      EmptyRows,
 }
